@@ -31,10 +31,13 @@ func (s Stim) String() string {
 		return fmt.Sprintf("answer#%d", s.Pick)
 	case "event":
 		return fmt.Sprintf("event(%s %s %s)", s.Ev.Kind, s.Ev.Ref, s.Ev.Op)
-	case "burst":
+	case "burst", "rapid":
 		var parts []string
 		for _, b := range s.Burst {
 			parts = append(parts, b.String())
+		}
+		if s.Kind == "rapid" {
+			return "back-to-back{" + strings.Join(parts, " ; ") + "}"
 		}
 		return "burst{" + strings.Join(parts, " || ") + "}"
 	}
@@ -231,6 +234,44 @@ func RunScript(c *ScriptCase) *ScriptOutcome {
 	}
 
 	runStim := func(s Stim) *ScriptOutcome {
+		if s.Kind == "rapid" {
+			// events delivered back-to-back from one goroutine, without waiting
+			// for the instance to settle in between. The generator guarantees
+			// that at most one of them can have an effect, so the outcome does
+			// not depend on timing and the model applies them in order.
+			done := make(chan struct{})
+			evs := s.Burst
+			go func() {
+				for _, b := range evs {
+					in.P.ConsumeEvent(toEvent(*b.Ev))
+				}
+				close(done)
+			}()
+			gs, err := in.Quiesce()
+			if err != nil {
+				out.Inconcl = err.Error()
+				return out
+			}
+			select {
+			case <-done:
+			default:
+				return fail("consume-blocked", fmt.Sprintf("%s: a ConsumeEvent call has not returned although the instance is quiescent", s), gs)
+			}
+			var exp []string
+			for _, b := range evs {
+				o := m.Event(*b.Ev)
+				exp = append(exp, o.Requests...)
+				out.Fired = append(out.Fired, o.Fired...)
+				hist = append(hist, b)
+			}
+			sort.Strings(exp)
+			got := takeNew()
+			out.Steps = append(out.Steps, Step{Stimulus: s.String(), Expected: exp, Got: got})
+			if miss, extra := multisetDiff(exp, got); len(miss)+len(extra) > 0 {
+				return fail("requests", fmt.Sprintf("after %s: missing %v extra %v (model pending %v armed %v)", s, miss, extra, m.PendingIDs(), m.Armed()), gs)
+			}
+			return nil
+		}
 		if s.Kind != "burst" {
 			// which node would the model answer?
 			probe := replayModel(c.Graph, c.Vars, hist)
